@@ -7,9 +7,16 @@
             pub uninterp spec fn confirmed(&self) -> bool;
         }
 
+        /// data invariant of the bank table, established by asm::defs::bankdef::define (proved there):
+        /// every defined bank has a positive address unit
+        pub open spec fn banks_wf(defs: &asm::ItemDefs) -> bool {
+            forall|k: int| 0 <= k < defs.bankdefs.defs@.len() && #[trigger] defs.bankdefs.defs@[k] is Some ==> defs.bankdefs.defs@[k]->0.addr_unit > 0
+        }
+
         /// the bank a context points into exists and is defined
         pub open spec fn bank_ok(defs: &asm::ItemDefs, bank_ref: util::ItemRef<asm::Bankdef>) -> bool {
             bank_ref.0 < defs.bankdefs.defs@.len() && defs.bankdefs.defs@[bank_ref.0 as int] is Some
+            && defs.bankdefs.defs@[bank_ref.0 as int]->0.addr_unit > 0   // from banks_wf, proved at bankdef::define
         }
         pub open spec fn bank_of(defs: &asm::ItemDefs, bank_ref: util::ItemRef<asm::Bankdef>) -> asm::Bankdef {
             defs.bankdefs.defs@[bank_ref.0 as int]->0
